@@ -135,6 +135,15 @@ def run(ctx):
     # ------------------------------------------------------------------ R11.8 (generic, scoped to this property's anchors)
     sm.rule_named_plumbing(ctx, mir, "C11", "R11.8", floor=36)
 
+    # ------------------------------------------------------------------ R11.9 (= R10.11)
+    from .c10 import rule_errors_not_swallowed
+    rule_errors_not_swallowed(ctx, mir, rid="R11.9")
+
+    # ------------------------------------------------------------------ R11.10 (= R12.8)
+    # after a bail-out the raw remainder starts at the failed token: it must not have been emitted already
+    from .c12 import rule_failed_token_not_emitted
+    rule_failed_token_not_emitted(ctx, mir, rid="R11.10")
+
     ctx.not_decided += ["the concatenation equality itself for every failure index (run-time positions)", "the two documented exceptions (content being removed; text handler failing on a later chunk of a partly emitted text node)"]
     return ("CFG path rules (dominance / must-pass-through, exhaustive over all paths of the MIR control-flow graphs) on "
             "TransformStream::write/end, Dispatcher::{try_produce_token_from_lexeme,flush_for_bail_out,run_bail_out_handlers,finish}; "
